@@ -20,8 +20,14 @@ def gen_irset(rng, special: Optional[bool] = None, toggle: Optional[bool] = None
     special = rng.random() < 0.5 if special is None else special
     toggle = rng.random() < 0.5 if toggle is None else toggle
     density = rng.choice([1.0, 1.0, 0.8, 0.5]) if density is None else density
-    rid = rng.choice(SPECIAL_IDS) if special else "".join(rng.choice("ABCDEFGHJKLMNPQRSTUVWXYZ") for _ in range(4)) + \
-        "%04d" % rng.randrange(10000)
+    if special:
+        rid = rng.choice(SPECIAL_IDS)
+    elif rng.random() < 0.3:
+        # ordinary remotes whose ids are near misses of the separate-swing ones
+        rid = rng.choice(["ELEC7001", "ELEC7023", "ELEC7021", "ZM079056", "ZM079050", "ZM079064", "ELEC70", "ZM0790", "elec7022",
+                          "ELEC702", "LEC7022"])
+    else:
+        rid = "".join(rng.choice("ABCDEFGHJKLMNPQRSTUVWXYZ") for _ in range(4)) + "%04d" % rng.randrange(10000)
     modes = [m for m in (1, 2, 3, 4, 5) if rng.random() < 0.75] or [rng.choice([1, 2, 3, 4, 5])]
     lo = rng.randrange(16, 24)
     hi = rng.randrange(lo, 31)
